@@ -825,6 +825,13 @@ func (c *octx) waits() *eng.Violation {
 				}
 			}
 		}
+		// routing takes no time: what follows a node's post starts at once (a
+		// self-loop re-runs the node without any wait)
+		for k := 1; k < len(or.Main); k++ {
+			if prev, cur := or.Main[k-1], or.Main[k]; prev.Kind == "post_end" && strings.HasSuffix(cur.Kind, "_start") && cur.T != prev.T {
+				return c.viol("wait-before-first-attempt", "node %d: %s started %dus after the post of node %d had returned (no attempt had failed: nothing to wait for)", cur.N, cur.Kind, (cur.T-prev.T)/1000, prev.N)
+			}
+		}
 		// cancellation inside a wait: the run ends at that very instant
 		cn := c.sc.Canceller
 		byDeadline := c.sc.Ctx.Kind == "deadline" && or.End.T >= c.sc.Ctx.DeadlineUs*1000
